@@ -251,15 +251,12 @@ Theorem C02_agent_events_safe : forall eps, 0 < eps -> forall tasks l ns k,
 Proof. exact agent_events_safe. Qed.
 Print Assumptions C02_agent_events_safe.
 
-(* agent scheduler cache, bind execution over a BATCH of accepted contexts (BATCH_BIND_NUM > 1): the
-   batch is the fold of single-context steps -- the resyncs of the failed pre-binds, then the resyncs
-   of the bindings the binder reports failed PER TASK, each in batch order -- and nothing else *)
-Theorem C02_flow_batch_is_fold : forall eps tasks pf bf ns pending,
-  fst (flow_batch eps tasks pf bf ns pending) =
-  fold_left (agent_step eps tasks) (flow_ops pf pending ++ flow_ops bf (flow_pass pf pending)) ns.
-Proof. exact flow_batch_is_fold. Qed.
-Print Assumptions C02_flow_batch_is_fold.
-
+(* agent scheduler cache, bind execution over a BATCH of accepted contexts (BATCH_BIND_NUM > 1).
+   BindModel.flow_batch is DEFINED as the fold of single-context resyncs (failed pre-binds, then the
+   bindings the binder reports failed per task); that it is what BindTask does is established by the
+   correspondence of the agent stream only (BindLemmas.flow_batch_is_fold merely unfolds the
+   definition and is used for the next theorem).  The content is below: safety, both directions
+   of the per-context mechanism, law 117 of the model, and the refutation of the batch-wide reading. *)
 (* whatever the pre-binders and the binder answer, the batch keeps every node ledger sound (idle
    bounds, ledger identity node_acct) *)
 Theorem C02_flow_batch_safe : forall eps, 0 < eps -> forall tasks pf bf ns pending,
@@ -275,6 +272,20 @@ Theorem C02_flow_batch_keeps_bound : forall eps tasks pf bf ns pending tid nid,
 Proof. exact flow_batch_keeps_bound. Qed.
 Print Assumptions C02_flow_batch_keeps_bound.
 
+(* the other direction: a context of the batch that a failure names is off its node's ledger *)
+Theorem C02_flow_batch_drops_named : forall eps tasks pf bf ns pending tid nid,
+  (tid, nid) ∈ pending -> tid ∈ pf \/ tid ∈ bf ->
+  on_ledger (fst (flow_batch eps tasks pf bf ns pending)) tid nid = None.
+Proof. exact flow_batch_drops_named. Qed.
+Print Assumptions C02_flow_batch_drops_named.
+
+(* law 117 (the extracted law_batch the driver evaluates on the real before / after observations)
+   holds of the model's batch, for every fault script and every state *)
+Theorem C02_law_batch_sound : forall eps tasks pf bf ns pending,
+  law_batch (pf, bf, map (fun p => (p.1, p.2, held_b ns p, held_b (fst (flow_batch eps tasks pf bf ns pending)) p)) pending) = true.
+Proof. exact law_batch_sound. Qed.
+Print Assumptions C02_law_batch_sound.
+
 (* a failure applied batch-wide (seeded mutant C02-r8-2) takes a pod the API server bound off the
    ledger; the next bind is admitted into its room: 1500m + 2000m on 3000m *)
 Theorem C02_batch_wide_failure_refuted :
@@ -286,15 +297,6 @@ Theorem C02_batch_wide_failure_refuted :
    cpu_held (fst (agent_add_bind_task 2 ns (fb_t 3) 1%positive)) = 2000 * 16).
 Proof. exact batch_wide_failure_refuted. Qed.
 Print Assumptions C02_batch_wide_failure_refuted.
-
-(* a bind in flight keeps its reservation: an update of the still unbound pod object is ignored for a
-   pod the cache holds in an allocated status -- whatever the update carries, a deletionTimestamp
-   included (seeded mutants C02-r3-1, C02-r9-1) *)
-Theorem C02_update_unbound_keeps_reservation : forall eps c tid deleting st,
-  c_heap c !! tid = Some st -> allocated_status (t_status st) = true ->
-  cache_event eps c (EvUpdateUnbound tid deleting) = c.
-Proof. exact update_unbound_keeps_reservation. Qed.
-Print Assumptions C02_update_unbound_keeps_reservation.
 
 (* the executable form of cinv used by law 115 is sound *)
 Theorem C02_cinv_b_sound : forall eps c, 0 < eps -> cinv_b eps c = true -> cinv eps c.
